@@ -42,6 +42,9 @@ def factory(prop):
     if prop == "C14":
         from engines.threads_to import ToThreadCheck
         return ToThreadCheck()
+    if prop == "C15":
+        from engines.threads_portal import PortalCheck
+        return PortalCheck()
     raise SystemExit(f"unknown property {prop}")
 
 
